@@ -166,7 +166,8 @@ def regStackInsts (is64 avx : Bool) (dt : Nat) (off : Int) (rid : Nat) (st : Nat
 def moveRegToStackArg (s : LSt) (arg : FuncValue) (rid : Nat) (st : Nat) (isVecReg : Bool) : Except String LSt :=
   (regStackInsts s.is64 s.avx arg.typeId arg.stackOffset rid st isVecReg).map s.emitAll
 
-/-- `move_reg_to_reg_arg` (fix C06-17): an 8/16-bit GP register for a wider integer register parameter is extended into a new
+/-- `move_reg_to_reg_arg` (fixes C06-17, C06-20): an 8/16-bit GP register for a wider integer register parameter, and a signed
+    32-bit register for a signed 64-bit one, is extended into a new
     virtual register of the parameter's width (32 bits for parameters up to 32 bits); answers the state and the new (rt, id) -/
 def moveRegToRegArg (s : LSt) (arg : FuncValue) (vid : Nat) (st : Nat) : Except String (LSt × Nat × Nat) :=
   let signExt := arg.typeId % 2 = 0 && st % 2 = 0
@@ -176,6 +177,7 @@ def moveRegToRegArg (s : LSt) (arg : FuncValue) (vid : Nat) (st : Nat) : Except 
   let n : Mnm := if signExt then .movsx else .movzx
   if isGp8 st then .ok (s.emit ⟨n, false, [.reg rt id, .reg 2 vid], false⟩, rt, id)
   else if isGp16 st then .ok (s.emit ⟨n, false, [.reg rt id, .reg 4 vid], false⟩, rt, id)
+  else if st = 38 && arg.typeId = 40 then .ok (s.emit ⟨.movsxd, false, [.reg rt id, .reg 5 vid], false⟩, rt, id)   -- fix C06-20
   else .error "InvalidState"
 
 /-- `move_vec_to_ptr`: the temporary, the pointer register (answered), the store; for a stack argument the pointer is stored too -/
@@ -207,11 +209,11 @@ def lowerValue (s : LSt) (arg : FuncValue) (op : ArgOp) : Except String (LSt × 
     if arg.isReg then
       if arg.isIndirect then (if gpRtOfType t ≠ s.nativeRt then .error "InvalidAssignment" else .ok (s, op))
       else if groupOfRt arg.regType ≠ 0 then .error "InvalidAssignment"
-      else if isInt arg.typeId && (isGp8 t || isGp16 t) && decide (tySize arg.typeId > tySize t) then
+      else if isInt arg.typeId && (((isGp8 t || isGp16 t) && decide (tySize arg.typeId > tySize t)) || (t = 38 && arg.typeId = 40)) then
         match moveRegToRegArg s arg vid t with
         | .error e => .error e
         | .ok (s, rt, id) => .ok (s, .gp id (if rt = 6 then 41 else 39))
-      else .ok (s, op)      -- 32-bit registers (and everything that is not narrower) are passed as they are
+      else .ok (s, op)      -- unsigned 32-bit registers (and everything that is not narrower) are passed as they are
     else
       if arg.isIndirect then
         if gpRtOfType t ≠ s.nativeRt then .error "InvalidAssignment" else (moveRegToStackArg s arg vid t false).map fun s => (s, op)
@@ -275,8 +277,8 @@ def onBeforeInvoke (is64 avx : Bool) (calleePops : Bool) (d : Detail) (ops : Lis
     .ok { pre := s.out, post := post, args := args, argStack := s.argStack, callStackSize := max css0 s.argStack,
           callStackAlign := s.csAlign, temps := s.temps }
 
-/-! ### AArch64 (a64rapass.cpp): no temporaries, no immediate stores – an immediate goes through a new 64-bit register, a register
-    is stored with `str` in its own width; register arguments are passed as they are -/
+/-! ### AArch64 (a64rapass.cpp): no temporaries, no immediate stores – an immediate goes through a new 64-bit register, a GP stack
+    argument is stored in the argument's size (fix C06-21), a vector one in the register's; register arguments are passed as they are -/
 
 /-- a64 `move_imm_to_reg_arg`: the immediate as it is moved (always into a new x register) -/
 def a64ImmValue (t : Nat) (imm : BitVec 64) : Option (BitVec 64) :=
@@ -291,7 +293,15 @@ def a64RtOfType (t : Nat) : Nat :=
   else if tySize t ≤ 4 then 9 else if tySize t ≤ 8 then 10 else 11
 
 def a64LowerValue (s : LSt) (arg : FuncValue) (op : ArgOp) : Except String (LSt × ArgOp) :=
-  let str (s : LSt) (rt id : Nat) : LSt := s.emit ⟨.str, false, [.reg rt id, .mem a64SpId arg.stackOffset 0], false⟩
+  -- fix C06-21: a GP stack argument is stored in the ARGUMENT's size
+  let str (s : LSt) (rt id : Nat) : LSt :=
+    let n := tySize arg.typeId
+    if rt = 5 || rt = 6 then
+      (if n = 1 then s.emit ⟨.strb, false, [.reg 5 id, .mem a64SpId arg.stackOffset 0], false⟩
+       else if n = 2 then s.emit ⟨.strh, false, [.reg 5 id, .mem a64SpId arg.stackOffset 0], false⟩
+       else if n = 4 then s.emit ⟨.str, false, [.reg 5 id, .mem a64SpId arg.stackOffset 0], false⟩
+       else s.emit ⟨.str, false, [.reg rt id, .mem a64SpId arg.stackOffset 0], false⟩)
+    else s.emit ⟨.str, false, [.reg rt id, .mem a64SpId arg.stackOffset 0], false⟩
   match op with
   | .none => .ok (s, op)
   | .imm v =>
